@@ -397,7 +397,8 @@ def run_sizes(c):
         compare(pol, peer, viol, st)
     # banner and compression
     # (the banner is free text after the software name: '=', '#' and ',' - the separators of the policy file - may occur in it, with or without blanks around them)
-    FREE = ['SSH-2.0-Y_2 rev = 7', 'SSH-2.0-Y_2 rev=7', 'SSH-2.0-Y_2 a # b', 'SSH-2.0-Y_2 k=v, w = z', 'SSH-2.0-Y_2 x=']
+    FREE = ['SSH-2.0-Y_2 rev = 7', 'SSH-2.0-Y_2 rev=7', 'SSH-2.0-Y_2 a # b', 'SSH-2.0-Y_2 k=v, w = z', 'SSH-2.0-Y_2 x=',
+            'SSH-2.0-Y_2 build "2024.1"', 'SSH-2.0-Y_2 say "hi" now', 'SSH-2.0-Y_2 x"']   # ... and double quotes, also as the last character (the value is written between quotes)
     for pb, qb in list(itertools.product([None, 'SSH-2.0-X_1', 'SSH-2.0-Y_2'], ['SSH-2.0-X_1', 'SSH-2.0-Y_2 c'])) + list(itertools.product(FREE, FREE)):
         if pb in FREE:
             st['free_text_banners'] = st.get('free_text_banners', 0) + 1
